@@ -83,3 +83,29 @@ def earley(tier):
         runs.append(dict(name="Earley-as-before-fix", module="Earley", timeout=1800, expect=("violates", "Correct"),
                          cfg=base % (2, "FALSE", "Correct", DL)))
     return runs
+
+
+def subset_construction(tier):
+    """SubsetConstruction.tla: EpsilonNFA._to_deterministic_internal as a worklist machine over every epsilon-NFA within
+    the constants and every symbol-iteration order; the two closure-dropping variants must be refuted."""
+    base = ('SPECIFICATION Spec\nCONSTANTS N = %d\n Sym = {"a","b"}\n MaxT = %d\n MaxW = 3\n Variant = "%s"\n%s' + DL)
+    invs = "".join("INVARIANT %s\n" % i for i in ("TodoProcessed", "NoDuplicateWork", "SourcesKnown", "DetOK", "Exact", "LangOK"))
+    n, t = (2, 3) if tier == "quick" else (3, 3)
+    runs = [dict(name="SubsetConstruction", module="SubsetConstruction", timeout=1800, workers=16, cfg=base % (n, t, "code", invs))]
+    for v in ("noStartEclose", "noStepEclose"):
+        runs.append(dict(name="SubsetConstruction-" + v, module="SubsetConstruction", timeout=600, expect=("violates", "LangOK"),
+                         why="sensitivity variant of the model", cfg=base % (2, 3, v, "INVARIANT LangOK\n")))
+    return runs
+
+
+def product_intersection(tier):
+    """ProductIntersection.tla: EpsilonNFA.get_intersection as a worklist machine over every pair of epsilon-NFAs within the
+    constants and every iteration order; two variants (closure forgotten on one side, `or` for the final pairs) must be refuted."""
+    base = ('SPECIFICATION Spec\nCONSTANTS N = 2\n Sym = {"a","b"}\n MaxTA = 2\n MaxTB = %d\n MaxW = 3\n Variant = "%s"\n%s' + DL)
+    invs = "".join("INVARIANT %s\n" % i for i in ("TodoProcessed", "NoDuplicateWork", "EndsKnown", "LangOK", "PairsReal"))
+    runs = [dict(name="ProductIntersection", module="ProductIntersection", timeout=1800, workers=16,
+                 cfg=base % (1 if tier == "quick" else 2, "code", invs))]
+    for v in ("noEcloseOther", "finalsEither"):
+        runs.append(dict(name="ProductIntersection-" + v, module="ProductIntersection", timeout=600, expect=("violates", "LangOK"),
+                         why="sensitivity variant of the model", cfg=base % (1, v, "INVARIANT LangOK\n")))
+    return runs
